@@ -12,7 +12,9 @@ import CE.Canon
   * `structural_document_roundtrip` — the full statement for the structural fragment of the
     alphabet (containers, Booleans, null, padding, comments, integers of every width and sign in
     all three event forms, big integers of up to 8192 bits, identifiers of markers / references / records / record types, UIDs,
-    strings and resource identifiers of any length up to 2^61, in short and chunk-header form):
+    strings and resource identifiers of any length up to 2^61, in short and chunk-header form,
+    typed arrays of every byte-multiple element kind (u8 .. u64, i8 .. i64, f16 .. f64, uid)
+    sent whole, in short and chunk-header form):
     for EVERY stream of such events, of any length and nesting, the encoder fails nowhere, the
     decoder reads the encoder's bytes back without error and to the end, and what it delivers
     carries the same data (`canon`) — nothing lost, nothing added.  By induction over the stream
@@ -20,8 +22,8 @@ import CE.Canon
     step reads back exactly this event and leaves the rest of the input untouched".
   * the per-event prefix-code round trips for integers, with arbitrary following bytes
     (`…_partial` below).
-  Not proved (`_partial`): floats, decimals, times, typed arrays and
-  arrays sent in chunks (the encoder's array state) are carried by the CBE.ENC / CBE.DEC correspondence and the round-trip
+  Not proved (`_partial`): floats, decimals, times, bit arrays, media, custom types and
+  arrays sent in several chunks (the encoder's array state) are carried by the CBE.ENC / CBE.DEC correspondence and the round-trip
   oracle of `bin/check C01` only.
 -/
 namespace CE.Props.C01
@@ -60,7 +62,7 @@ theorem structural_document_roundtrip (evs : List Ev) (h : evs.all simple = true
 
 /-- non-vacuity: a nested document with a marker, a reference, a record, integers of several
     widths and signs, a comment and padding satisfies the hypothesis -/
-example : ([Ev.map, .marker [97], .list, .int (-5), .stringlike .string [104, 105], .stringlike .rid (List.replicate 40 120),
+example : ([Ev.map, .marker [97], .list, .int (-5), .stringlike .string [104, 105], .stringlike .rid (List.replicate 40 120), .array .u16 2 [1, 0, 2, 0], .array .f64 2 (List.replicate 16 0),
             .posInt 70000, .negInt 0, .endContainer, .true_, .refLocal [97],
             .comment false [120], .padding, .posInt (2 ^ 64 - 1), .record [114, 49], .null, .endContainer,
             .endContainer] : List Ev).all simple = true := by decide
